@@ -14,26 +14,41 @@ use std::panic::{catch_unwind, AssertUnwindSafe};
 
 pub struct Unsup(pub String);
 
-fn f(v: &Value) -> f64 {
+/// Entry points that need a source file's private items are implemented next to them
+/// (per-file hook modules) for these tag types.
+pub trait FileEntry {
+    fn call(req: &Value) -> Value;
+}
+pub struct SpeedPointTag;
+pub struct PathTpcTag;
+pub struct PathResTag;
+pub struct BrakingPointTag;
+pub struct LinkImplTag;
+pub struct TrainStateTag;
+pub struct SpeedLimitTrainSimTag;
+pub struct SetSpeedTrainSimTag;
+pub struct StrapTag;
+
+pub fn f(v: &Value) -> f64 {
     v.as_f64().unwrap_or(f64::NAN)
 }
-fn b(v: &Value) -> bool {
+pub fn b(v: &Value) -> bool {
     v.as_bool().unwrap()
 }
-fn of(v: &Value) -> Option<f64> {
+pub fn of(v: &Value) -> Option<f64> {
     if v.is_null() { None } else { Some(f(v)) }
 }
-fn ob(v: &Value) -> Option<bool> {
+pub fn ob(v: &Value) -> Option<bool> {
     if v.is_null() { None } else { Some(b(v)) }
 }
 
-type CallRes = Result<anyhow::Result<Value>, Unsup>;
+pub type CallRes = Result<anyhow::Result<Value>, Unsup>;
 
-fn unit(r: anyhow::Result<()>) -> CallRes {
+pub fn unit(r: anyhow::Result<()>) -> CallRes {
     Ok(r.map(|_| Value::Null))
 }
 
-fn run<T: DeserializeOwned + Serialize>(req: &Value, call: fn(&mut T, &str, &[Value]) -> CallRes) -> Value {
+pub fn run<T: DeserializeOwned + Serialize>(req: &Value, call: fn(&mut T, &str, &[Value]) -> CallRes) -> Value {
     let mut obj: T = match serde_json::from_value(req["recv"].clone()) {
         Ok(o) => o,
         Err(e) => return json!({"kind": "unsupported", "msg": format!("deserialize: {e}")}),
@@ -122,7 +137,7 @@ fn call_pdct(o: &mut PowerDistributionControlType, fname: &str, a: &[Value]) -> 
     Ok(r.map(|v| json!(v.iter().map(|x| x.get::<si::watt>()).collect::<Vec<f64>>())))
 }
 
-fn vf(v: &Value) -> Vec<f64> {
+pub fn vf(v: &Value) -> Vec<f64> {
     v.as_array().map(|a| a.iter().map(f).collect()).unwrap_or_default()
 }
 
@@ -166,8 +181,11 @@ pub fn dispatch(line: &str) -> String {
         Err(e) => return json!({"kind": "unsupported", "msg": format!("bad request: {e}")}).to_string(),
     };
     let ty = req["recv_ty"].as_str().unwrap_or("").to_string();
+    let f0 = req["calls"][0]["fn"].as_str().unwrap_or("").to_string();
     let out = match ty.as_str() {
+        _ if f0.starts_with("PathTpc::") => <PathTpcTag as FileEntry>::call(&req),
         "<free>" => run_free(&req),
+        "Vec<SpeedLimitPoint>" => <SpeedPointTag as FileEntry>::call(&req),
         "PowerDistributionControlType" => run::<PowerDistributionControlType>(&req, call_pdct),
         "Locomotive" => run::<Locomotive>(&req, call_loco),
         "Consist" => run::<Consist>(&req, call_consist),
